@@ -512,6 +512,12 @@ Definition rapply := rapply_gen true false.
 Definition cop_of (r : rop) (v : option Z) : cop :=
   match r with RPer => OPer v | RTotal => OTotal v | RCur => OCur v end.
 
+(* `cost_spec.raw_cost = cost` (required_node_property.__set__ -> replace_node): the whole cost is
+   replaced; an attached cost is refused by its detach() before anything is written.  CostSpec keeps
+   no cache of the components (raw_cost_components is an uncached custom_property), so the state after
+   the assignment is the assigned cost. *)
+Definition set_raw_cost (att : bool) (s c : cost) : cost * res unit := refuse_if att s (c, Ok tt).
+
 (* a whole assignment sequence, as a Python program would run it: a refused assignment raises,
    the caller catches it and goes on (results collected in order) *)
 Fixpoint run_gen (fixed : bool) (s : cost) (ops : list cop) : cost * list (res unit) :=
@@ -562,3 +568,10 @@ Definition count (k : comp -> bool) (l : list comp) : nat := length (filter k l)
 Definition normal_b (s : cost) : bool :=
   (count is_amountlike (c_comps s) <=? 1)%nat && (count is_date (c_comps s) <=? 1)%nat
   && (count is_label (c_comps s) <=? 1)%nat && (count is_asterisk (c_comps s) <=? 1)%nat.
+
+(* the shape outside Normal that the parser also accepts and on which the setters lose a value
+   (known finding C09:cost:separate-number-currency-components): a bare number and a bare currency as
+   two components, no amount and no compound amount *)
+Definition separate_b (s : cost) : bool :=
+  (count is_number (c_comps s) =? 1)%nat && (count is_currency (c_comps s) =? 1)%nat
+  && (count is_amount (c_comps s) =? 0)%nat && (count is_compound (c_comps s) =? 0)%nat.
